@@ -12,7 +12,7 @@
 // after the threads have ended.  Output:  ... ok | ... DIFF thread=<t> iter=<i> what=<family> | ... X <signal> | ... T timeout
 // Class "CopyStorm:<class>" (copy-construction from ONE shared const object, the sharer count of reference-counted classes):
 // phase A: T threads, released together, each make <iterations> LIVE copies of the shared object (kept alive) and probe the last
-// one; after joining, a class that counts its sharers (Modular<Log16> and the domains built over it) must count EXACTLY
+// one; after joining, a class that counts its c18_sharers (Modular<Log16> and the domains built over it) must count EXACTLY
 // before + T * iterations; phase B: the threads destroy their copies concurrently; the count must be back to `before`, and the
 // shared object must still give the reference digest.  what=count-live:<got>/<expected> | count-end:... | digest-<when>
 // `c18_threads --families` prints the family table (name <tab> call forms).
@@ -28,13 +28,13 @@
 #include <signal.h>
 
 // const probes of the RNS systems (their conversion members are not const; the accessors are, and fill caches lazily)
-template <class R> static void pr_intrns_const(const R& rns, Sink& s) {
+template <class R> static void c18_pr_intrns_const(const R& rns, Sink& s) {
     s.part("rnsc"); OS& o = s.o;
     o << rns.NumOfPrimes() << " prod=" << rns.product() << " ck=";
     for (size_t k = 1; k < rns.Reciprocals().size(); ++k) o << rns.Reciprocals()[k] << ",";
     o << " p="; for (size_t k = 0; k < rns.Primes().size(); ++k) o << rns.Primes()[k] << ","; o << rns.ith(0) << "," << rns.reciprocal(1);
 }
-template <class R> static void pr_rns_const(const R& rns, Sink& s) {
+template <class R> static void c18_pr_rns_const(const R& rns, Sink& s) {
     s.part("rnsc"); OS& o = s.o;
     o << rns.size() << " ck=";
     for (size_t k = 1; k < rns.Reciprocals().size(); ++k) o << (long long)rns.Reciprocals()[k] << ",";
@@ -43,7 +43,7 @@ template <class R> static void pr_rns_const(const R& rns, Sink& s) {
 
 // QField<Rational>: the field of rationals (no parameters; operator= is deleted).  Fractions are printed as stored (num/den), so a
 // result that was not reduced (Rational::flags switched by somebody else) differs from the sequential digest.
-static void pr_qfield(const QField<Rational>& Q, Sink& s) {
+static void c18_pr_qfield(const QField<Rational>& Q, Sink& s) {
     s.part("qfield"); OS& o = s.o;
     static const long N[] = {1, -3, 6, 35, 1000000007L, -12}, D[] = {2, 4, 9, 49, 6, 18};
     Rational a, b, c, r;
@@ -60,8 +60,8 @@ static void pr_qfield(const QField<Rational>& Q, Sink& s) {
     }
 }
 // "Independent big integers, rationals and fixed-precision integers may likewise be operated on concurrently": no shared object at all
-struct Indep {};
-static void pr_indep(const Indep&, Sink& s) {
+struct c18_Indep {};
+static void c18_pr_indep(const c18_Indep&, Sink& s) {
     s.part("indep"); OS& o = s.o;
     Integer a("123456789012345678901234567890"), b("987654321098765432109876543"), c, d;
     for (int i = 0; i < 12; ++i) {
@@ -71,48 +71,48 @@ static void pr_indep(const Indep&, Sink& s) {
         RecInt::ruint<7> x(123456789u), y(987654321u), z; x *= y; x += (RecInt::ruint<7>)i; z = x * x; z -= y; z /= (RecInt::ruint<7>)(i + 3); o << z << " ";
     }
 }
-template <class D, void (*PROBE)(const D&, Sink&)> struct BoxNA : Any {      // copy-constructible, not assignable
+template <class D, void (*PROBE)(const D&, Sink&)> struct c18_BoxNA : Any {      // copy-constructible, not assignable
     D d;
-    BoxNA(const D& x) : d(x) {}
-    Any* copy() const { return new BoxNA(d); }
+    c18_BoxNA(const D& x) : d(x) {}
+    Any* copy() const { return new c18_BoxNA(d); }
     void assign(const Any&) {}
     void probe(Sink& s) { PROBE(d, s); }
 };
 
 // ---- sharer counts (protected member numRefs of Modular<Log16>: read through a derived class without data members)
-struct PeekLog16 : Modular<Log16> { long refs() const { return numRefs ? (long)(int)(*numRefs) : -1; } };
-static long refs_of(const Modular<Log16>& F) { return static_cast<const PeekLog16&>(F).refs(); }
-typedef Poly1Dom<Modular<Log16>, Dense> PolyLog16;
-typedef Extension<Modular<Log16> > ExtLog16;
-static void pr_polylog16(const PolyLog16& pd, Sink& s) { s.part("poly"); probe_poly(pd, s.o, false); }
-static void pr_extlog16(const ExtLog16& f, Sink& s) { s.part("ext"); probe_extension(f, s.o); }
-static long sharers(const std::string& cls, Any* a) {
-    if (cls == "Modular<Log16>") return refs_of(static_cast<RINGBOX(Modular<Log16>)*>(a)->d);
-    if (cls == "Poly1Dom<Modular<Log16>,Dense>") return refs_of(static_cast<Box<PolyLog16, pr_polylog16>*>(a)->d.getdomain());
-    if (cls == "Extension<Modular<Log16>>") return refs_of(static_cast<Box<ExtLog16, pr_extlog16>*>(a)->d.base_field());
-    return -1;          // the class does not count sharers
+struct c18_PeekLog16 : Modular<Log16> { long refs() const { return numRefs ? (long)(int)(*numRefs) : -1; } };
+static long c18_refs_of(const Modular<Log16>& F) { return static_cast<const c18_PeekLog16&>(F).refs(); }
+typedef Poly1Dom<Modular<Log16>, Dense> c18_PolyLog16;
+typedef Extension<Modular<Log16> > c18_ExtLog16;
+static void c18_pr_polylog16(const c18_PolyLog16& pd, Sink& s) { s.part("poly"); probe_poly(pd, s.o, false); }
+static void c18_pr_extlog16(const c18_ExtLog16& f, Sink& s) { s.part("ext"); probe_extension(f, s.o); }
+static long c18_sharers(const std::string& cls, Any* a) {
+    if (cls == "Modular<Log16>") return c18_refs_of(static_cast<RINGBOX(Modular<Log16>)*>(a)->d);
+    if (cls == "Poly1Dom<Modular<Log16>,Dense>") return c18_refs_of(static_cast<Box<c18_PolyLog16, c18_pr_polylog16>*>(a)->d.getdomain());
+    if (cls == "Extension<Modular<Log16>>") return c18_refs_of(static_cast<Box<c18_ExtLog16, c18_pr_extlog16>*>(a)->d.base_field());
+    return -1;          // the class does not count c18_sharers
 }
 
 static Any* make18(const std::string& cls, int P) {
     P &= 3;
-    if (cls == "QField<Rational>") return new BoxNA<QField<Rational>, pr_qfield>(QField<Rational>());
-    if (cls == "Independent<Integer,Rational,ruint>") return new BoxNA<Indep, pr_indep>(Indep());
+    if (cls == "QField<Rational>") return new c18_BoxNA<QField<Rational>, c18_pr_qfield>(QField<Rational>());
+    if (cls == "Independent<Integer,Rational,ruint>") return new c18_BoxNA<c18_Indep, c18_pr_indep>(c18_Indep());
     if (cls == "IntRNSsystem<vector>") {
         typedef IntRNSsystem<std::vector, std::allocator> R; std::vector<Integer> pr;
         static const long PS[4][5] = {{3, 5, 7, 0, 0}, {11, 13, 17, 19, 0}, {1000003, 1000033, 999983, 65521, 2}, {2, 3, 0, 0, 0}};
         for (int k = 0; k < 5 && PS[P][k]; ++k) pr.push_back(Integer(PS[P][k]));
-        return new Box<R, pr_intrns_const<R> >(R(pr));
+        return new Box<R, c18_pr_intrns_const<R> >(R(pr));
     }
     if (cls == "RNSsystem<Integer,Modular<double>>") {
         typedef RNSsystem<Integer, Modular<double> > R;
         static const long PS[4][5] = {{3, 5, 7, 0, 0}, {11, 13, 17, 19, 0}, {1009, 1013, 65521, 2, 0}, {2, 3, 0, 0, 0}};
         int n = 0; while (n < 5 && PS[P][n]) ++n;
         R::domains dm(n); for (int k = 0; k < n; ++k) dm[k] = Modular<double>((double)PS[P][k]);
-        return new Box<R, pr_rns_const<R> >(R(dm));
+        return new Box<R, c18_pr_rns_const<R> >(R(dm));
     }
     static const long L16P[] = {7, 101, 16381, 3};
-    if (cls == "Poly1Dom<Modular<Log16>,Dense>") { Modular<Log16> B((Modular<Log16>::Residu_t)L16P[P]); return new Box<PolyLog16, pr_polylog16>(PolyLog16(B, Indeter(P & 1 ? "Y" : "X"))); }
-    if (cls == "Extension<Modular<Log16>>") { Modular<Log16> B((Modular<Log16>::Residu_t)L16P[P]); return new Box<ExtLog16, pr_extlog16>(ExtLog16(B, (uint64_t)(2 + (P & 1)))); }
+    if (cls == "Poly1Dom<Modular<Log16>,Dense>") { Modular<Log16> B((Modular<Log16>::Residu_t)L16P[P]); return new Box<c18_PolyLog16, c18_pr_polylog16>(c18_PolyLog16(B, Indeter(P & 1 ? "Y" : "X"))); }
+    if (cls == "Extension<Modular<Log16>>") { Modular<Log16> B((Modular<Log16>::Residu_t)L16P[P]); return new Box<c18_ExtLog16, c18_pr_extlog16>(c18_ExtLog16(B, (uint64_t)(2 + (P & 1)))); }
     // rarely instantiated storage types / specialisations that are not among the history classes of c16_probes.h
     static const long S8[] = {7, 11, 5, 3}, U8[] = {7, 13, 11, 3}, S16[] = {7, 101, 181, 3}, BIG[] = {7, 101, 46337, 3};
     if (cls == "Modular<int8_t>") return new RINGBOX(Modular<int8_t>)(Modular<int8_t>((int8_t)S8[P]));
@@ -128,41 +128,41 @@ static Any* make18(const std::string& cls, int P) {
     return make(cls, P);
 }
 
-static uint64_t fam_digest(int f) { std::ostringstream o; c18::FAMILIES[f].run(o); return fnv(o.str()); }
+static uint64_t c18_fam_digest(int f) { std::ostringstream o; c18::FAMILIES[f].run(o); return fnv(o.str()); }
 
-static void run_mixed(const std::string& cls, int P, int T, int iters, bool rotate) {
+static void c18_run_mixed(const std::string& cls, int P, int T, int iters, bool rotate) {
     const int NF = c18::NFAM;
     c18::c18_rmint_modules();                 // the documented module setters: once, before any thread exists
     std::vector<uint64_t> ref(NF);
-    for (int f = 0; f < NF; ++f) ref[f] = fam_digest(f);
-    for (int f = 0; f < NF; ++f) if (fam_digest(f) != ref[f]) { printf("%s %d %d X family-%s-not-deterministic\n", cls.c_str(), P, T, c18::FAMILIES[f].name); return; }
+    for (int f = 0; f < NF; ++f) ref[f] = c18_fam_digest(f);
+    for (int f = 0; f < NF; ++f) if (c18_fam_digest(f) != ref[f]) { printf("%s %d %d X family-%s-not-deterministic\n", cls.c_str(), P, T, c18::FAMILIES[f].name); return; }
     std::atomic<int> bad(0), bt(-1), bi(-1), bf(-1), go(0);
     std::vector<std::thread> th;
     for (int t = 0; t < T; ++t) th.push_back(std::thread([&, t]() {
         while (!go.load()) { }
         for (int i = 0; i < iters; ++i) {
             int f = ((t + P + (rotate ? i : 0)) % NF + NF) % NF;
-            if (fam_digest(f) != ref[f]) { if (!bad.exchange(1)) { bt = t; bi = i; bf = f; } }
+            if (c18_fam_digest(f) != ref[f]) { if (!bad.exchange(1)) { bt = t; bi = i; bf = f; } }
         }
     }));
     go = 1;
     for (size_t t = 0; t < th.size(); ++t) th[t].join();
     // what the threads did must not have changed any process-wide mode: the sequential results are still the same
-    for (int f = 0; f < NF; ++f) if (fam_digest(f) != ref[f] && !bad.exchange(1)) { bt = -1; bi = iters; bf = f; }
+    for (int f = 0; f < NF; ++f) if (c18_fam_digest(f) != ref[f] && !bad.exchange(1)) { bt = -1; bi = iters; bf = f; }
     if (bad) printf("%s %d %d DIFF thread=%d iter=%d what=%s\n", cls.c_str(), P, T, (int)bt, (int)bi, c18::FAMILIES[(int)bf].name);
     else printf("%s %d %d ok\n", cls.c_str(), P, T);
 }
 
-static uint64_t digest(Any* a) { Sink s(0, false); a->probe(s); s.close(); return s.acc; }
+static uint64_t c18_digest(Any* a) { Sink s(0, false); a->probe(s); s.close(); return s.acc; }
 
-static uint64_t digest(Any* a);
-static void run_storm(const std::string& full, int P, int T, int K) {
+
+static void c18_run_storm(const std::string& full, int P, int T, int K) {
     const std::string cls = full.substr(10);
     Any* shared = make18(cls, P);
     if (!shared) { printf("%s %d %d X unknown-class\n", full.c_str(), P, T); return; }
     uint64_t ref;
-    { Any* c = shared->copy(); ref = digest(c); delete c; }
-    const long before = sharers(cls, shared);
+    { Any* c = shared->copy(); ref = c18_digest(c); delete c; }
+    const long before = c18_sharers(cls, shared);
     std::vector<std::vector<Any*> > live(T);
     std::atomic<int> go(0), bad(0);
     std::string what;
@@ -172,19 +172,19 @@ static void run_storm(const std::string& full, int P, int T, int K) {
             live[t].reserve(K);
             while (!go.load()) { }
             for (int i = 0; i < K; ++i) live[t].push_back(shared->copy());
-            if (K && digest(live[t].back()) != ref) bad = 1;
+            if (K && c18_digest(live[t].back()) != ref) bad = 1;
         }));
         go = 1;
         for (size_t t = 0; t < th.size(); ++t) th[t].join();
     }
     if (bad) what = "digest-copy";
-    const long mid = sharers(cls, shared);
-    // (an object may hold several sharers of the tables: zero / one / nested domains -- per copy the same number as measured sequentially)
+    const long mid = c18_sharers(cls, shared);
+    // (an object may hold several c18_sharers of the tables: zero / one / nested domains -- per copy the same number as measured sequentially)
     long per = 0;
-    if (before >= 0) { Any* c = shared->copy(); per = sharers(cls, shared) - mid; delete c; }
+    if (before >= 0) { Any* c = shared->copy(); per = c18_sharers(cls, shared) - mid; delete c; }
     if (what.empty() && before >= 0 && mid != before + per * (long)T * K) {
         char b[96]; snprintf(b, sizeof b, "count-live:%ld/%ld", mid, before + per * (long)T * K); what = b; }
-    if (what.empty() && digest(shared) != ref) what = "digest-shared-live";
+    if (what.empty() && c18_digest(shared) != ref) what = "digest-shared-live";
     if (!what.empty()) {
         // the count is wrong: destroying the copies would free tables that are in use; report now
         printf("%s %d %d DIFF thread=-1 iter=%d what=%s\n", full.c_str(), P, T, K, what.c_str()); return;
@@ -200,38 +200,38 @@ static void run_storm(const std::string& full, int P, int T, int K) {
         go = 1;
         for (size_t t = 0; t < th.size(); ++t) th[t].join();
     }
-    const long end = sharers(cls, shared);
+    const long end = c18_sharers(cls, shared);
     if (before >= 0 && end != before) { char b[96]; snprintf(b, sizeof b, "count-end:%ld/%ld", end, before); what = b; }
-    else if (digest(shared) != ref) what = "digest-shared-end";
+    else if (c18_digest(shared) != ref) what = "digest-shared-end";
     if (!what.empty()) printf("%s %d %d DIFF thread=-1 iter=%d what=%s\n", full.c_str(), P, T, K, what.c_str());
     else printf("%s %d %d ok\n", full.c_str(), P, T);
     return;                             // (the shared object is deliberately not destroyed: a miscounted class would double-free here)
 }
 
-static void run_case(const std::string& cls, int P, int T, int iters, bool nocopy) {
-    if (cls.compare(0, 10, "CopyStorm:") == 0) { run_storm(cls, P, T, iters); return; }
-    if (cls == "Mixed<values>" || cls == "MixedRotate<values>") { run_mixed(cls, P, T, iters, cls[5] == 'R'); return; }
+static void c18_run_case(const std::string& cls, int P, int T, int iters, bool nocopy) {
+    if (cls.compare(0, 10, "CopyStorm:") == 0) { c18_run_storm(cls, P, T, iters); return; }
+    if (cls == "Mixed<values>" || cls == "MixedRotate<values>") { c18_run_mixed(cls, P, T, iters, cls[5] == 'R'); return; }
     Any* shared = make18(cls, P);
     if (!shared) { printf("%s %d %d X unknown-class\n", cls.c_str(), P, T); return; }
     uint64_t ref;
-    { Any* c = shared->copy(); ref = digest(c); delete c; }
+    { Any* c = shared->copy(); ref = c18_digest(c); delete c; }
     std::atomic<int> bad(0); std::atomic<int> bt(-1), bi(-1), bw(0);
     std::atomic<int> go(0);
     std::vector<std::thread> th;
     for (int t = 0; t < T; ++t) th.push_back(std::thread([&, t]() {
         while (!go.load()) { }
         for (int i = 0; i < iters; ++i) {
-            if (digest(shared) != ref) { if (!bad.exchange(1)) { bt = t; bi = i; bw = 0; } }
+            if (c18_digest(shared) != ref) { if (!bad.exchange(1)) { bt = t; bi = i; bw = 0; } }
             if (nocopy) continue;
             Any* c = shared->copy();
-            if (digest(c) != ref) { if (!bad.exchange(1)) { bt = t; bi = i; bw = 1; } }
+            if (c18_digest(c) != ref) { if (!bad.exchange(1)) { bt = t; bi = i; bw = 1; } }
             delete c;
         }
     }));
     go = 1;
     for (size_t t = 0; t < th.size(); ++t) th[t].join();
     // the shared object itself must still be intact
-    if (digest(shared) != ref && !bad.exchange(1)) { bt = -1; bi = iters; bw = 0; }
+    if (c18_digest(shared) != ref && !bad.exchange(1)) { bt = -1; bi = iters; bw = 0; }
     delete shared;
     if (bad) printf("%s %d %d DIFF thread=%d iter=%d what=%s\n", cls.c_str(), P, T, (int)bt, (int)bi, bw ? "copy" : "shared");
     else printf("%s %d %d ok\n", cls.c_str(), P, T);
@@ -251,10 +251,10 @@ int main(int argc, char** argv) {
         std::istringstream is(line); std::string cls; int P = 0, T = 2, iters = 1;
         is >> cls >> P >> T >> iters; std::string opt; bool nocopy = false; while (is >> opt) if (opt == "nocopy") nocopy = true;
         fprintf(stderr, "C18CLASS %s\n", cls.c_str()); fflush(stderr);
-        if (nofork) { run_case(cls, P, T, iters, nocopy); fflush(stdout); continue; }
+        if (nofork) { c18_run_case(cls, P, T, iters, nocopy); fflush(stdout); continue; }
         fflush(stdout);
         pid_t pid = fork();
-        if (pid == 0) { alarm(limit); run_case(cls, P, T, iters, nocopy); fflush(stdout); fflush(stderr); _exit(0); }
+        if (pid == 0) { alarm(limit); c18_run_case(cls, P, T, iters, nocopy); fflush(stdout); fflush(stderr); _exit(0); }
         int st = 0; waitpid(pid, &st, 0);
         if (WIFSIGNALED(st) && WTERMSIG(st) == SIGALRM) printf("%s %d %d T timeout\n", cls.c_str(), P, T);
         else if (WIFSIGNALED(st)) printf("%s %d %d X signal-%d\n", cls.c_str(), P, T, WTERMSIG(st));
